@@ -6,6 +6,10 @@ Decided (explicit data flow, flow- and field-sensitive, per engine path):
   FLOW-C16b  the page offset is parse_cursor(request.cursor, total) on every engine path (the cursor is parsed against
              the same total that is reported). next_cursor depends on the cursor only through control flow
              (`produced < offset` skipping), which explicit-flow analysis does not see; it is not checked.
+  FLOW-C16e  the page size may raise the candidate budget of the sketch pre-filter but never cap it: where
+             SearchParams.top_k flows into max_candidates it does so through max(_, constant) - a floor. A min() on that
+             flow makes the budget at most c * page_size, so walking small pages can never reach candidates a single
+             large request sees (the pages no longer partition the single request's stream).
 Not decided: that the concatenation of pages equals the one-shot result (values)."""
 from . import lib
 from .facts import op_place, Place
@@ -75,7 +79,37 @@ ENGINES = ('memvid::search::tantivy::try_tantivy_search', 'memvid::search::fallb
 PRODUCERS = ('search_documents', 'compute_matches')
 
 
+def _budget(ctx, F):
+    ctx.rule('FLOW-C16e', 'top_k reaches the sketch candidate budget only through max(_, const) (floor), never through min (cap)')
+    fn = ctx.need('FLOW-C16e', 'Memvid::search')
+    if fn is None:
+        return
+    found = 0
+    for bb, i, st in fn.stmts():
+        rv = st['rv']
+        if rv['k'] == 'agg' and 'max_candidates' in (rv.get('fields') or []):
+            found += 1
+            op = rv['ops'][rv['fields'].index('max_candidates')]
+            sl = lib.slice_back(fn, [op], through_calls=True, at=(bb, i))
+            ctx.evaluations += 1
+            ctx.touch(fn, 1)
+            dep = sl.has_field('SearchParams', 'top_k') or sl.has_field('SearchRequest', 'top_k')
+            names = {c.name for c in sl.calls}
+            if not dep:
+                ctx.ok('FLOW-C16e', fn, 'the sketch candidate budget does not depend on the page size', line=st.get('l'))
+            elif names & {'min', 'clamp'}:
+                ctx.bad('FLOW-C16e', fn, 'the sketch candidate budget is capped by the page size (top_k flows into max_candidates through %s): small pages can never reach candidates that a '
+                        'single large request sees' % '/'.join(sorted(names & {'min', 'clamp'})), line=st.get('l'), sink='max_candidates', detail='budget-capped-by-page-size')
+            elif 'max' in names and sl.const_vals():
+                ctx.ok('FLOW-C16e', fn, 'top_k only raises the sketch candidate budget above a constant floor (max)', line=st.get('l'))
+            else:
+                ctx.bad('FLOW-C16e', fn, 'the sketch candidate budget follows the page size without a constant floor', line=st.get('l'), sink='max_candidates', detail='budget-follows-page-size')
+    if not found:
+        ctx.lost('FLOW-C16e', 'Memvid::search: construction of the sketch search options (max_candidates) not found')
+
+
 def run(ctx):
+    _budget(ctx, ctx.facts())
     ctx.rule('FLOW-C16a', 'request.cursor does not flow into total_hits nor into the candidate producer\'s arguments')
     ctx.rule('GUARD-C16c', 'the page counter advances one result at a time (larger steps only under a bound test against the offset)')
     ctx.rule('FLOW-C16b', 'page offset = parse_cursor(request.cursor, total reported)')
